@@ -388,6 +388,19 @@ func BuildScenario(seed int64, pow bool) (*Scenario, error) {
 	for _, r := range relayerEntries(chains) {
 		sc.gov(clienttypes.NewRegisterRelayerProposal("t", "d", r.Address, r.Chains, r.Addresses), "register relayer", true)
 	}
+	// a registration as an operator may well write it: lines repeated, the same counterparty address once in mixed and once
+	// in lower case, one chain listed with several addresses (whatever is stored for it, every node must store the same)
+	{
+		extra := core.NewAccount("c14-relayer-with-repeated-lines")
+		mixed := extra.Eth.Hex()
+		lower := strings.ToLower(mixed)
+		var cs, as []string
+		for _, c := range []string{"eth-main", "bsc-test", "eth-main", "eth-main", "bsc-test", "eth-rinkeby", "eth-main", "bsc-test", "eth-rinkeby", "eth-rinkeby"} {
+			cs = append(cs, c)
+		}
+		as = []string{mixed, mixed, lower, mixed, lower, mixed, "0x00000000000000000000000000000000000000a1", "0x00000000000000000000000000000000000000A2", lower, "0x00000000000000000000000000000000000000a3"}
+		sc.govAny(clienttypes.NewRegisterRelayerProposal("t", "d", extra.Bech32(), cs, as), "register relayer with repeated lines")
+	}
 	// Rinkeby-mode ETH client + one header
 	rk0 := rinkebyGenesis()
 	rkCS := &ethtypes.ClientState{Header: rk0, ChainId: 4, ContractAddress: make([]byte, 20), TrustingPeriod: 1 << 40, BlockDelay: 0}
